@@ -12,7 +12,7 @@ Tokens
   ('m', k)                       node multiplier (coarse fragments only)
 """
 
-ORDER = {None: 1, '-': 1, '=': 2, '#': 3, '.': 0, '$': 4}
+ORDER = {None: 1, '-': 1, '=': 2, '#': 3, '.': 0, '$': 4, ':': 1.5}
 
 
 class FBound:
